@@ -62,6 +62,7 @@ class Loader(yaml.SafeLoader):
         """
         node = cast(yaml.Node, super().get_single_node())
         if node is not None:
+            node = self.__expand_aliases(node, [])
             node = self.__process_node(node, type(self).document_type)
         return node
 
@@ -77,8 +78,56 @@ class Loader(yaml.SafeLoader):
         """
         node = cast(yaml.Node, super().get_node())
         if node is not None:
+            node = self.__expand_aliases(node, [])
             node = self.__process_node(node, type(self).document_type)
         return node
+
+    def __expand_aliases(
+            self, node: yaml.Node, ancestors: List[yaml.Node]) -> yaml.Node:
+        """Replaces aliases by copies of the anchored node.
+
+        PyYAML represents an alias by a second reference to the very
+        same node object. We recognise, savorize and retag nodes in
+        place, and a node may need to be processed differently
+        depending on where it is referenced from, so we give every
+        reference its own copy of the node before processing.
+
+        Args:
+            node: The node to copy.
+            ancestors: The nodes on the path from the root to node.
+
+        Returns:
+            A copy of the tree headed by node, without shared nodes.
+        """
+        if any(node is ancestor for ancestor in ancestors):
+            raise RecognitionError((
+                '{}\nThis node contains an alias that refers to the node'
+                ' itself or to one of its parents. Recursive structures are'
+                ' not supported.').format(node.start_mark))
+
+        if isinstance(node, yaml.SequenceNode):
+            ancestors.append(node)
+            new_node = yaml.SequenceNode(
+                    node.tag,
+                    [self.__expand_aliases(i, ancestors) for i in node.value],
+                    node.start_mark, node.end_mark,
+                    node.flow_style)   # type: yaml.Node
+            ancestors.pop()
+        elif isinstance(node, yaml.MappingNode):
+            ancestors.append(node)
+            new_node = yaml.MappingNode(
+                    node.tag,
+                    [(
+                        self.__expand_aliases(k, ancestors),
+                        self.__expand_aliases(v, ancestors))
+                        for k, v in node.value],
+                    node.start_mark, node.end_mark, node.flow_style)
+            ancestors.pop()
+        else:
+            new_node = yaml.ScalarNode(
+                    node.tag, node.value, node.start_mark, node.end_mark,
+                    node.style)
+        return new_node
 
     def __type_to_tag(self, type_: Type) -> str:
         """Convert a type to the corresponding YAML tag.
